@@ -166,6 +166,12 @@ def cargo_build(log, release=False):
     cmd = ["cargo", "build", "--offline"] + (["--release"] if release else [])
     rc, out = sh(cmd, cwd=HARNESS, timeout=3000)
     log.append(f"[{' '.join(cmd)}] rc={rc}")
+    if rc != 0 and ("linking with" in out or "undefined hidden symbol" in out or "incremental" in out):
+        # a corrupted incremental / link cache of the harness itself (e.g. after an interrupted build) is not a property of
+        # /repo: drop the harness' own artifacts and build once more
+        sh(["cargo", "clean", "-p", "harness", "--offline"] + (["--release"] if release else []), cwd=HARNESS, timeout=600)
+        rc, out = sh(cmd, cwd=HARNESS, timeout=3000)
+        log.append(f"[{' '.join(cmd)} (after cleaning the harness artifacts)] rc={rc}")
     if rc != 0:
         log.append(out[-4000:])
     return rc == 0
